@@ -11,7 +11,7 @@ func init() {
 		ID:    "C16",
 		Level: "other",
 		Run:   c16,
-		Explanation: "Structural necessary conditions of atomic import / exact export, decided on every path. Import: primary gate, then the full write lock (released by defer), then journal invalidation and WAL truncation, then importToLTX, then the fatal apply of exactly the file importToLTX published; every step's error ends the import before the next. importToLTX: header provenance (TXID = previous+1, pre-checksum = previous post-checksum, page size and commit from the image's own header), pages 1..PageN in order from the reader, the lock page skipped, at page 1 the change counter (bytes 24-27) and schema cookie (bytes 40-43) zeroed before the page is encoded AND before it is checksummed, post-apply checksum accumulated over exactly the encoded bytes, a short read ends before the rename, the temp/fsync/rename/dir-fsync protocol (shared with C05). Validate-before-publish: every input-dependent failure of the fatal apply must be excluded before the LTX file is created: creation and rename are dominated by 'page size unknown or equal to the image's'. Export: the lock-set typestate of the capture/read protocol (shared with C10: capture of position, size, page size and overlay under SHARED and the WAL WRITE lock; page reads under SHARED+READ0-4+CKPT+RECOVER; offsets from the copied overlay), bytes written = the page buffer just read, for pgno 1..captured page count. HTTP: import runs under the primary-lease context, export answers 404 for an unknown database before writing; both handlers test the name first.",
+		Explanation: "Structural necessary conditions of atomic import / exact export, decided on every path. Import: primary gate, then the full write lock (released by defer), then journal invalidation and WAL truncation, then importToLTX, then the fatal apply of exactly the file importToLTX published; every step's error ends the import before the next. importToLTX: header provenance (TXID = previous+1, pre-checksum = previous post-checksum, page size and commit from the image's own header), pages 1..PageN in order from the reader, the lock page skipped, at page 1 the change counter (bytes 24-27) and schema cookie (bytes 40-43) zeroed before the page is encoded AND before it is checksummed, post-apply checksum accumulated over exactly the encoded bytes, a short read ends before the rename, the temp/fsync/rename/dir-fsync protocol (shared with C05). Validate-before-publish: every input-dependent failure of the fatal apply must be excluded before the LTX file is created: creation and rename are dominated by 'page size unknown or equal to the image's'. Export: the lock-set typestate of the capture/read protocol (shared with C10: capture of position, size, page size and overlay under SHARED and the WAL WRITE lock; page reads under SHARED+READ0-4+CKPT+RECOVER; offsets from the copied overlay), bytes written = the page buffer just read, for pgno 1..captured page count. HTTP: import runs under the primary-lease context, export answers 404 for an unknown database before writing; both handlers test the name first. Import discards the local journal and WAL only after the whole image was read into a published LTX file (a failed import changes nothing) and before the apply; the image's page size is used as a divisor only after the encoder validated it; DB.pageSize is written only where a header teaches it; the PERSIST invalidation zeroes at least the bytes the journal reader requires to be zero.",
 		NotDecided: "byte equality of export(import(x)) and x, and replicas reaching the identical image (run-time values).",
 		Assumptions: []string{"go/ssa faithfully represents the source", "ltx.Encoder rejects invalid headers and pages (vendored dependency)"},
 	})
